@@ -951,7 +951,6 @@ func derivesFromParamField(v ssa.Value, prm *ssa.Parameter, field string) bool {
 	return rec(v, 0, false)
 }
 
-
 // freeVarIsParamCell: the free variable fv of closure h is bound to the cell a parameter of the
 // enclosing function was spilled to (and that cell is never reassigned).
 func freeVarIsParamCell(h *ssa.Function, fv *ssa.FreeVar) bool {
